@@ -7,7 +7,8 @@ EXPLANATION = ("C12 (narrow): req0_pipe_close drains the pipe's contexts and eit
                "re-queues them; req0_run_send_queue records the context on the pipe it sends on before the send; the retry "
                "timer callback re-arms itself or clears retry_active on every non-terminal path and req0_ctx_send arms an idle "
                "timer; the retry queue and the retained clone are used only when ctx->retry > 0. Liveness under faults and the "
-               "timing of resends are not decided.")
+               "timing of resends are not decided."
+               " Also: a policy field that exists in both the socket and the context record is read from the socket only by initialisers and option functions (R4).")
 
 
 def rule_r1(ctx):
